@@ -483,7 +483,18 @@ func main() {
 	wg.Wait()
 
 	// generate spec: .json vs .yml output of the scanner, with integers beyond 2^53 and hostile strings
-	for i, name := range []string{"plain", "123", "true", "2001-12-14", "a: b"} {
+	scanNames := []string{"plain", "123", "true", "2001-12-14", "a: b",
+		// text that looks like an escape sequence of one of the two renderings, and characters encoding/json escapes for HTML
+		`a\u003cb\u0026c\u003e`, `<tag> & "quoted"`, `back\slash \n \t`, `tab\there`, "caf\u00e9 \u00e9", `%3C %26`, "'single' `tick`"}
+	for _, sc := range scalars {
+		if !strings.ContainsAny(sc.text, "\n\r\u0007\t\u2028") && strings.TrimSpace(sc.text) == sc.text && sc.text != "" && !isolated(sc.text) {
+			scanNames = append(scanNames, sc.text)
+		}
+	}
+	if *n < 60 {
+		scanNames = scanNames[:18] // quick tier: the hand-picked ones and the first scalars
+	}
+	for i, name := range scanNames {
 		dir := filepath.Join(*work, fmt.Sprintf("scan%d", i))
 		_ = os.RemoveAll(dir)
 		if err := gorun.NewModule(dir); err != nil {
